@@ -222,6 +222,41 @@ theorem verify_iff (kt : KT) (hk : kt ≠ .other) (pk msg : String) (σ : SigV) 
     verify kt pk msg σ = true ↔ σ = .valid kt pk msg := by
   cases kt <;> simp [verify] at hk ⊢
 
+/-- `checkSign_sound` (the legacy helper `CheckSign`): a request is authenticated as `A` only if
+    the access-control service maps its key list to `A`, there is at least one key, and **every**
+    listed key carries a genuine ed25519 signature over exactly `fn ++ args ++ keys`. -/
+theorem checkSign_sound (e : Env) (fn : String) (plain auth : List String) (acl : AclReply) (A : String)
+    (h : checkSign e fn plain auth acl = .ok A) :
+    1 ≤ auth.length / 2 ∧
+    (∃ kts n ha b g, acl = .ok A kts n ha b g ∧ ¬ (ha = true ∧ g = true)) ∧
+    ∀ ks ∈ (auth.take (auth.length / 2)).zip ((auth.drop (auth.length / 2)).take (auth.length / 2)),
+      e.sigOf ks.2 = .valid .ed ks.1 (fn ++ String.join (plain ++ auth.take (auth.length / 2))) := by
+  unfold checkSign at h
+  by_cases h0 : auth.length / 2 = 0
+  · simp [h0] at h
+  · simp only [h0, if_false] at h
+    split at h
+    · cases h
+    · rename_i hall
+      simp only [Bool.not_eq_true', Bool.not_eq_false] at hall
+      refine ⟨by omega, ?_, ?_⟩
+      · cases acl with
+        | status => cases h
+        | empty => cases h
+        | garbled => cases h
+        | ok addr kts n ha b g =>
+          simp only at h
+          split at h
+          · cases h
+          · rename_i hg
+            injection h with h
+            subst h
+            exact ⟨kts, n, ha, b, g, rfl, by simpa using hg⟩
+      · intro ks hks
+        have hv := List.all_eq_true.mp hall ks hks
+        simp only [verify] at hv
+        exact beq_iff_eq.mp hv
+
 /-! ### non-vacuity: a concrete accepted request, and the same request with a blank signature -/
 
 def exEnv : Env := ⟨"vt", "vt",
